@@ -50,6 +50,10 @@ use std::task::{Context, Poll, Wake, Waker};
 
 use serde_json::{json, Value as Json};
 use swimos_utilities::byte_channel::{byte_channel, BudgetedFutureExt};
+
+#[allow(dead_code, unexpected_cfgs)]
+#[path = "/repo/swimos_utilities/swimos_byte_channel/src/channel/mod.rs"]
+mod nocoop_channel;
 use tokio::io::{AsyncRead, AsyncWrite, ReadBuf};
 
 use crate::core::log::EventLog;
@@ -334,7 +338,24 @@ impl<'a> SeqRun<'a> {
 
 /// Executes one sequence against a fresh real channel. Returns the first violation (the sequence
 /// stops there, the model has diverged) or a harness error.
-fn run_seq(
+fn run_seq(si: usize, seq: &Seq, h: &mut Hist, step: &mut u64, c: &mut Ctr) -> Result<Option<Violation>, String> {
+    if seq.cap == 0 || seq.cap > 4096 {
+        return Err(format!("seq {si}: capacity {} out of range", seq.cap));
+    }
+    if seq.nocoop {
+        // The build of the channel without the `coop` feature (the same source file compiled into the harness, where
+        // that feature does not exist).
+        let (w, r) = nocoop_channel::byte_channel(NonZeroUsize::new(seq.cap).unwrap());
+        run_seq_on(w, r, si, seq, h, step, c)
+    } else {
+        let (w, r) = byte_channel(NonZeroUsize::new(seq.cap).unwrap());
+        run_seq_on(w, r, si, seq, h, step, c)
+    }
+}
+
+fn run_seq_on<W: tokio::io::AsyncWrite + Unpin, R: tokio::io::AsyncRead + Unpin>(
+    w: W,
+    r: R,
     si: usize,
     seq: &Seq,
     h: &mut Hist,
@@ -353,7 +374,6 @@ fn run_seq(
     let small_budget = seq.budget.map(|b| NonZeroUsize::new(b).unwrap());
     let large = NonZeroUsize::new(LARGE_BUDGET).unwrap();
 
-    let (w, r) = byte_channel(NonZeroUsize::new(seq.cap).unwrap());
     let mut writer = Some(w);
     let mut reader = Some(r);
     let rws: [Arc<CountWaker>; 3] = [Arc::new(CountWaker::default()), Arc::new(CountWaker::default()), Arc::new(CountWaker::default())];
